@@ -11,21 +11,32 @@ RULE = ('texts over each predefined (and a few custom) alphabet with upper/lower
         'x strings over the source for as_encoded_array re-targeting and bnp.change_encoding; the same three operations and '
         'enc.decode on not-yet-materialised lazy views built by prior indexing (reversed rows, permutation, repeated index, '
         'argsort of lengths, boolean mask, row slice not starting at 0, step, column slices, compositions), built fresh per '
-        'call and handed over untouched, with the expected rows obtained by the same indexing on Python lists.  Non-trivial = the text '
+        'call and handed over untouched, with the expected rows obtained by the same indexing on Python lists; numeric offset '
+        'encodings (Digit/Quality/Cigar: every byte 0..255, all routes, encode-decode round trip); StringEncoding (label sets x '
+        'known labels, near-miss unknown labels at every position, hash-colliding unknown labels); KmerEncoding (all k-mers for '
+        'small n^k, largest k-mer, foreign letter at every position, wrong lengths).  Non-trivial = the text '
         'contains a foreign or lower-case character, or the pair is a cross-alphabet pair')
 EXHAUSTIVE = {'quick': False, 'thorough': False}
 TIE = 'translator+correspondence'
 ASSUMPTIONS = ['str inputs are limited to latin-1 characters (code points 0..255); a non-ASCII character in a str raises '
                'UnicodeEncodeError, which the check counts as an encoding error',
-               'alphabets are ASCII (all predefined ones are); NumPy fancy assignment with repeated indices keeps the last value']
-PARTIAL = ['C06_lookup_pinned_partial, C06_encode_rows_pinned_partial, C06_change_encoding_pinned_partial: the code at HEAD '
-           '(alphabet+32 table) is exact only for characters that are not (non-letter member)+32; the full statements '
-           '(C06_lookup_exact, C06_encode_exact, C06_encode_rows_exact, C06_change_encoding_text) are proved for the '
-           'repaired table of notes/C06.fix-1.diff',
-           'C06_retarget_pinned_partial: the HEAD re-target rule is sound only when both alphabets agree at the largest code '
-           'present; C06_retarget_sound is proved for the repaired rule of notes/C06.fix-2.diff',
-           'EncodingError.offset is compared with the model (model_ok) but is not part of spec_ok',
-           'KmerEncoding / StringEncoding (anchored files kmer_encodings.py, string_encodings.py) are not modelled']
+               'alphabets are ASCII (all predefined ones are); NumPy fancy assignment with repeated indices keeps the last value',
+               'numeric offset encodings are exercised on uint8 text (wrapping arithmetic) and, for decode, on int64 values',
+               'StringEncoding label sets have no empty label (an empty label makes the constructor raise IndexError in '
+               'ascii_hash.column_index_array) and pairwise distinct hashes (the constructor asserts it)',
+               'translator reading conventions: see notes/C06.md (a 1-char str is its code point; element-wise NumPy read per element; '
+               'tbl[idx]=vals assigns in order)']
+PARTIAL = ['C06_lookup_pinned_partial, C06_encode_rows_pinned_partial, C06_change_encoding_pinned_partial, C06_retarget_pinned_partial: '
+           'history — the guarded statements for the code before fixes c99b89e / f03a70b; the full statements and the link theorems '
+           'are proved for the repaired variants, which are the ones in /repo',
+           'C06_string_pinned_partial: StringEncoding at HEAD matches labels by hash only (finding C06-string-encoding-hash-only); '
+           'C06_string_sound / C06_string_rejects_unknown / C06_link_string are proved for the variant of notes/C06.fix-3.diff',
+           'EncodingError.offset is compared with the model (model_ok) and proved to be the first foreign position for the model '
+           '(C06_encode_exact), but it is not part of spec_ok: the property text only says "raises an encoding error"',
+           'KmerEncoding: C06_kmer_exact / C06_kmer_injective are model-level; there is no link theorem for case kind 6 '
+           '(spec_ok is evaluated case by case)',
+           'numeric offset encodings do not reject bytes below min_code (uint8 wrap, C06_numeric_u8_below_range_wraps); the property '
+           'does not ask them to']
 PER_FILE = 64
 
 # name in bionumpy.encodings.alphabet_encoding -> constructor string (alphabet_encoding.py:105-125)
@@ -268,6 +279,111 @@ def _gen_views(tier, rng):
     return cases
 
 
+# ----------------------------------------------------------------------------- numeric / string / k-mer encodings
+NUMERIC = [('DigitEncoding', 48), ('QualityEncoding', 33), ('CigarEncoding', 0)]      # bionumpy.encodings.<name>, min code
+STR_M = 2 ** 31 - 1
+
+
+def _str_hash(s):
+    p, tot = 1, 0
+    for c in s.encode('latin1'):
+        tot += (p * c) % STR_M
+        p = (p * 129) % STR_M
+    return tot % STR_M
+
+
+def _gen_numeric(tier, rng):
+    cases = []
+    for name, mc in NUMERIC:
+        allb = _s(list(range(256)))
+        cases.append(dict(kind=4, route=3, num=name, mc=mc, rows=[allb]))                 # every byte 0..255
+        cases.append(dict(kind=4, route=4, num=name, mc=mc, rows=[allb[:100], '', allb[100:]]))
+        cases.append(dict(kind=4, route=0, num=name, mc=mc, rows=[allb[:128]]))
+        cases.append(dict(kind=4, route=9, num=name, mc=mc, rows=[list(range(0, 300, 7)) + [255 - mc, 256 - mc, 255, 256]]))
+        for i in range(30 if tier == 'quick' else 300):
+            lo = mc if i % 3 else 0
+            hi = 126 if i % 5 else 255
+            nrow = rng.choice([1, 1, 2, 3, 4])
+            rows = [_s([rng.randint(lo, hi) for _ in range(rng.choice([0, 1, 2, 5, 9]))]) for _ in range(nrow)]
+            route = [0, 1, 3][i % 3] if nrow == 1 else [2, 4][i % 2]
+            cases.append(dict(kind=4, route=route, num=name, mc=mc, rows=rows))
+        cases.append(dict(kind=4, route=2, num=name, mc=mc, rows=['', '']))
+        cases.append(dict(kind=4, route=0, num=name, mc=mc, rows=['']))
+    return cases
+
+
+LABEL_SETS = [['chr1', 'chr2', 'A', 'chrX'], ['a', 'b', 'c'], ['only'],
+              ['chr%d' % i for i in range(1, 23)] + ['chrX', 'chrY', 'chrM'],
+              ['+', '-', '.'], ['HLA-A*01:01', 'HLA-A*02:01', 'HLA-B*07:02'], ['ab', 'ba', 'aab', 'aba', 'b']]
+KNOWN_COLLISIONS = {'chr1': 'vjPac9'}      # same polynomial hash mod 2^31-1 (found by a meet-in-the-middle search)
+
+
+def _gen_string(tier, rng):
+    cases = []
+    sets = [list(s) for s in LABEL_SETS]
+    for _ in range(4 if tier == 'quick' else 30):
+        n = rng.randint(2, 8)
+        labs = set()
+        while len(labs) < n:
+            labs.add(''.join(rng.choice('ACGTacgt0123456789_chrXYM.') for _ in range(rng.randint(1, 7))))
+        sets.append(sorted(labs))
+    for labels in sets:
+        if len(set(_str_hash(l) for l in labels)) != len(labels):
+            continue
+        cases.append(dict(kind=5, route=0, labels=labels, queries=list(labels)))
+        cases.append(dict(kind=5, route=0, labels=labels, queries=list(reversed(labels)) + [labels[0]]))
+        cases.append(dict(kind=5, route=0, labels=labels, queries=[]))
+        for l in labels[:6]:
+            cases.append(dict(kind=5, route=1, labels=labels, queries=[l]))
+        unknowns = []
+        for l in labels[:5]:
+            unknowns += [l + 'x', l[:-1], l.swapcase(), l + '\x00', '\x00' + l, l[::-1], l + l]
+            if l in KNOWN_COLLISIONS and _str_hash(KNOWN_COLLISIONS[l]) == _str_hash(l):
+                unknowns.append(KNOWN_COLLISIONS[l])
+        unknowns += ['', 'zz', 'chr', '\x00']
+        unknowns = [u for u in dict.fromkeys(unknowns) if u not in labels]
+        for u in unknowns:
+            qs = [rng.choice(labels) for _ in range(rng.randint(0, 3))]
+            pos = rng.randint(0, len(qs))
+            cases.append(dict(kind=5, route=[0, 2][len(u) % 2], labels=labels, queries=qs[:pos] + [u] + qs[pos:]))
+            if u:
+                cases.append(dict(kind=5, route=1, labels=labels, queries=[u]))
+        for i in range(6 if tier == 'quick' else 40):
+            cases.append(dict(kind=5, route=[0, 2][i % 2], labels=labels, queries=[rng.choice(labels) for _ in range(rng.randint(1, 9))]))
+    return cases
+
+
+def _gen_kmer(tier, rng):
+    cases = []
+    for e in [n for n, _ in PRE] + ['custom:acgt']:
+        A = _alpha(e)
+        n = len(A)
+        foreign = [c for c in _interesting(A) if not _member(A, c)]
+        ks = [1, 2, 3, 5, 8] + ([12] if n <= 5 else [])
+        for k in ks:
+            if n ** k <= 125:
+                allk = [_s([_rcase(rng, c) for c in t]) for t in itertools.product(A, repeat=k)]
+                cases.append(dict(kind=6, route=2, dst=e, k=k, rows=allk))
+            cases.append(dict(kind=6, route=0, dst=e, k=k, rows=[_s([A[-1]] * k)]))            # the largest k-mer
+            cases.append(dict(kind=6, route=2, dst=e, k=k, rows=[_s([A[-1]] * k), _s([A[0]] * k)]))
+            for i in range(6 if tier == 'quick' else 40):
+                rows = [[_rcase(rng, rng.choice(A)) for _ in range(k)] for _ in range(1 if i % 2 else rng.randint(2, 5))]
+                kind_i = i % 6
+                if kind_i == 1:
+                    r = rng.randrange(len(rows))
+                    rows[r][rng.randrange(k)] = rng.choice(foreign)
+                elif kind_i == 2:
+                    rows[rng.randrange(len(rows))].append(rng.choice(A))                          # k+1 letters
+                elif kind_i == 3 and k > 0:
+                    rows[rng.randrange(len(rows))].pop()                                          # k-1 letters
+                cases.append(dict(kind=6, route=0 if len(rows) == 1 else 2, dst=e, k=k, rows=[_s(r) for r in rows]))
+            for p in range(min(k, 3)):
+                t = [_rcase(rng, rng.choice(A)) for _ in range(k)]
+                t[p if p < 2 else k - 1] = foreign[0]
+                cases.append(dict(kind=6, route=[0, 2][p % 2], dst=e, k=k, rows=[_s(t)]))
+    return cases
+
+
 def generate(tier, seed):
     rng = random.Random(seed * 7919 + 6)
     cases = []
@@ -278,6 +394,7 @@ def generate(tier, seed):
     pairs = _gen_pairs(tier, rng)
     enc.sort(key=lambda c: sum(len(r) for r in c['rows']))
     cases += enc + pairs + _gen_views(tier, rng)
+    cases += _gen_numeric(tier, rng) + _gen_string(tier, rng) + _gen_kmer(tier, rng)
     return cases
 
 
@@ -338,7 +455,92 @@ def _result(r, want_flat, dst, enc_obj):
     return dict(codes=codes, text=[t.encode('latin1').hex() for t in text], same_enc=bool(r.encoding == enc_obj))
 
 
+def _observe_ext(case):
+    import numpy as np
+    import bionumpy as bnp
+    from bionumpy.encoded_array import EncodedArray, EncodedRaggedArray, BaseEncoding
+    from npstructures import RaggedArray
+    kind, route = case['kind'], case['route']
+    if kind == 4:
+        import bionumpy.encodings as E
+        enc = getattr(E, case['num'])
+        rows = case['rows']
+        try:
+            if route == 9:
+                back = enc.decode(np.array(rows[0], dtype=np.int64))
+                return dict(zcodes=[list(rows[0])], ztext=[[int(x) for x in back]])
+            fb = np.frombuffer(''.join(rows).encode('latin1'), dtype=np.uint8).copy()
+            if route == 0:
+                r = enc.encode(rows[0])
+            elif route == 1:
+                r = bnp.as_encoded_array(rows[0], enc)
+            elif route == 2:
+                r = enc.encode(list(rows))
+            elif route == 3:
+                r = enc.encode(fb)
+            else:
+                r = enc.encode(EncodedRaggedArray(EncodedArray(fb, BaseEncoding), [len(x) for x in rows]))
+            back = enc.decode(r)
+        except Exception as ex:
+            return _err(ex)
+        if route in (0, 1, 3):
+            if isinstance(r, (RaggedArray, EncodedArray)) or not isinstance(r, np.ndarray) or r.ndim != 1:
+                return dict(err='other', name='type:' + type(r).__name__)
+            return dict(zcodes=[[int(x) for x in r]], ztext=[[int(x) for x in back]])
+        if not isinstance(r, RaggedArray) or isinstance(r, EncodedRaggedArray):
+            return dict(err='other', name='type:' + type(r).__name__)
+        return dict(zcodes=[[int(x) for x in row] for row in r.tolist()], ztext=[[int(x) for x in row] for row in back.tolist()])
+    if kind == 5:
+        from bionumpy.encodings.string_encodings import StringEncoding
+        try:
+            enc = StringEncoding(list(case['labels']))
+            q = case['queries']
+            if route == 0:
+                r = enc.encode(list(q))
+            elif route == 1:
+                r = enc.encode(q[0])
+            else:
+                r = bnp.as_encoded_array(list(q), enc)
+        except Exception as ex:
+            return _err(ex)
+        if not isinstance(r, EncodedArray) or r.encoding is not enc:
+            return dict(err='other', name='type:' + type(r).__name__)
+        try:
+            raw = np.atleast_1d(r.raw())
+            codes = [int(x) for x in raw]
+            d = enc.decode(r)
+            text = [d.to_string()] if route == 1 else d.tolist()
+            if len(codes) == 0:
+                text = []
+        except Exception as ex:
+            return dict(err='undec', name='decode:' + type(ex).__name__)
+        return dict(zcodes=[codes], ztext=[[c for c in s.encode('latin1')] for s in text])
+    if kind == 6:
+        from bionumpy.encodings.kmer_encodings import KmerEncoding
+        enc = KmerEncoding(_get_enc(case['dst']), case['k'])
+        rows = case['rows']
+        try:
+            r = enc.encode(rows[0]) if route == 0 else enc.encode(list(rows))
+        except AssertionError:
+            return dict(err='other', name='AssertionError')
+        except Exception as ex:
+            return _err(ex)
+        if not isinstance(r, EncodedArray):
+            return dict(err='other', name='type:' + type(r).__name__)
+        try:
+            hs = [int(x) for x in np.atleast_1d(r.raw())]
+            text = [enc.to_string(np.int64(h)) for h in hs]
+            joined = r.to_string()
+            if joined != ','.join(text) and not (route == 0 and joined == text[0]):
+                return dict(err='other', name='to_string disagrees')
+        except Exception as ex:
+            return dict(err='undec', name='decode:' + type(ex).__name__)
+        return dict(zcodes=[hs], ztext=[[c for c in s.encode('latin1')] for s in text])
+
+
 def observe(case):
+    if case['kind'] >= 4:
+        return _observe_ext(case)
     import numpy as np
     import bionumpy as bnp
     from bionumpy.encoded_array import EncodedArray, EncodedRaggedArray, BaseEncoding
@@ -425,7 +627,13 @@ def _cenc(e):
     return '(Alpha %s)' % hx(_decl(e).encode('latin1'))
 
 
+def _zrows(rows):
+    return clist([zl(r) for r in rows], 'list Z')
+
+
 def _cout(o):
+    if 'zcodes' in o:
+        return '(OOk %s %s)' % (_zrows(o['zcodes']), _zrows(o['ztext']))
     if 'codes' in o:
         return '(OOk %s %s)' % (clist([hx(bytes(r)) for r in o['codes']], 'list Z'),
                                 clist([hx(bytes.fromhex(t)) for t in o['text']], 'list Z'))
@@ -436,6 +644,18 @@ def _cout(o):
 
 def to_coq(case, o):
     kind = case['kind']
+    if kind >= 4:
+        if kind == 4:
+            p, dst = case['mc'], 'Base'
+            rows = _zrows(case['rows']) if case['route'] == 9 else clist([hx(r.encode('latin1')) for r in case['rows']], 'list Z')
+        elif kind == 5:
+            p, dst = len(case['labels']), 'Base'
+            rows = clist([hx(r.encode('latin1')) for r in case['labels'] + case['queries']], 'list Z')
+        else:
+            p, dst = case['k'], _cenc(case['dst'])
+            rows = clist([hx(r.encode('latin1')) for r in case['rows']], 'list Z')
+        return ('{| k_kind := %d; k_route := %d; k_src := Base; k_dst := %s; k_rows := %s; k_out := %s; '
+                'k_table := []; k_alpha := %s |}' % (kind, case['route'], dst, rows, _cout(o), zl([p])))
     if kind == 3:
         return ('{| k_kind := 3; k_route := %d; k_src := Base; k_dst := %s; k_rows := []; k_out := OOther; '
                 'k_table := %s; k_alpha := %s |}' % (case['route'], _cenc(case['dst']), zl(o['table']), zl(o['alphabet'])))
@@ -449,6 +669,8 @@ def to_coq(case, o):
 
 # ----------------------------------------------------------------------------- evidence / findings
 def _text_bytes(case):
+    if case['kind'] >= 4:
+        return []
     if case['kind'] == 0:
         return [c for r in case['rows'] for c in r.encode('latin1')]
     if case['kind'] in (1, 2):
@@ -460,6 +682,13 @@ def _text_bytes(case):
 def nontrivial(case, o):
     if case['kind'] == 3:
         return True
+    if case['kind'] == 4:
+        return any(len(r) for r in case['rows'])
+    if case['kind'] == 5:
+        return any(q not in case['labels'] for q in case['queries']) or len(case['queries']) > 1
+    if case['kind'] == 6:
+        A = _alpha(case['dst'])
+        return any(len(r) != case['k'] or any((not _member(A, c)) or 97 <= c <= 122 for c in r.encode('latin1')) for r in case['rows']) or len(case['rows']) > 1
     if case['kind'] == 0:
         A = _alpha(case['dst'])
         return any((not _member(A, c)) or 97 <= c <= 122 for c in _text_bytes(case))
@@ -476,8 +705,8 @@ def distribution(cases, obs):
     d = dict(kind={}, route={}, outcome={}, text_len={}, encodings=len(ENCS) + len(ALIAS))
     for c, o in zip(cases, obs):
         for key, v in (('kind', c['kind']), ('route', '%d/%d' % (c['kind'], c['route'])),
-                       ('outcome', 'table' if 'table' in o else ('ok' if 'codes' in o else o.get('err', '?'))),
-                       ('text_len', min(10, sum(len(r) for r in c.get('rows', []))))):
+                       ('outcome', 'table' if 'table' in o else ('ok' if ('codes' in o or 'zcodes' in o) else o.get('err', '?'))),
+                       ('text_len', min(10, sum(len(r) for r in c.get('rows', c.get('queries', [])))))):
             d[key][str(v)] = d[key].get(str(v), 0) + 1
     return d
 
@@ -491,6 +720,21 @@ def _shifted_nonletters(e):
 
 def finding(case, o):
     kind = case['kind']
+    if kind == 5:
+        # exactly: accepted although some query is not a label, and every such query has the hash of a label
+        if 'zcodes' not in o:
+            return None
+        lh = {_str_hash(l): i for i, l in enumerate(case['labels'])}
+        unknown = [q for q in case['queries'] if q not in case['labels']]
+        if not unknown or any(_str_hash(q) not in lh for q in case['queries']):
+            return None
+        # ... and the observation is exactly what a hash-only lookup yields (anything else is another failure)
+        want = [lh[_str_hash(q)] for q in case['queries']]
+        if o['zcodes'] == [want] and o['ztext'] == [[c for c in case['labels'][i].encode('latin1')] for i in want]:
+            return 'C06-string-encoding-hash-only'
+        return None
+    if kind in (4, 6):
+        return None
     if kind == 3:
         A = _alpha(case['dst'])
         sh = _shifted_nonletters(case['dst'])
@@ -516,15 +760,17 @@ def finding(case, o):
 
 def signature(case, o):
     return '%d/%s/%s' % (case['kind'], 'flat' if case['route'] in (0, 1, 3, 6) else 'rows',
-                         'ok' if 'codes' in o else ('table' if 'table' in o else o.get('err')))
+                         'ok' if ('codes' in o or 'zcodes' in o) else ('table' if 'table' in o else o.get('err')))
 
 
 def search(tier, seed, disagreeing):
     """after a broken obligation: the thorough enumeration restricted to the encodings involved"""
     encs = set()
     for c in disagreeing:
-        encs.add(c.get('dst'))
-        encs.add(c.get('src'))
+        if c.get('dst'):
+            encs.add(c.get('dst'))
+        if c.get('src'):
+            encs.add(c.get('src'))
     allc = generate('thorough', seed + 1)
     sel = [c for c in allc if not encs or c.get('dst') in encs or c.get('src') in encs]
     return sel[:6000]
